@@ -583,6 +583,7 @@ func c12R36(ic *IC, r *Report) {
 }
 
 func init() {
+	ruleText["R12.39"] = "= R03.25: no early acceptance of typecheck.binaryExpr bypasses the agreement of the operand types"
 	ruleText["R12.38"] = "the operands of & are the addressable ones: in typecheck.addressExpr the case of index expressions accepts the element of an array or slice (isArray) and of the array a pointer points to, and does not accept the element of a map - no condition of that case that ends in 'found' calls isMap; an index expression on a map is answered with an error"
 }
 
